@@ -69,7 +69,7 @@ func TestVerifC20(t *testing.T) {
 			var c outCase
 			r.ReplayCase(&c)
 			judgeOut(r, c, runOutCase(c))
-		case probe.Kind == "cfg" || probe.Kind == "observed-url" || probe.Kind == "gating":
+		case probe.Kind == "cfg" || probe.Kind == "observed-url" || probe.Kind == "gating" || probe.Kind == "spelling":
 			var c nodeCase
 			r.ReplayCase(&c)
 			needDummyVP(t)
@@ -94,6 +94,9 @@ func TestVerifC20(t *testing.T) {
 	}
 	if want("flags") {
 		sectionFlags(t, r)
+	}
+	if want("spelling") {
+		sectionSpelling(t, r)
 	}
 	if want("gating") {
 		sectionGating(t, r)
